@@ -442,6 +442,52 @@ theorem group_total_rows (st : Settings) (sel : BalRow → Bool) (key : Txn → 
     exact members_wf key txns hwf kg.1
   exact forall₂_sum st sel k hsel _ _ hall hcs
 
+/-! ### the `expect` in `balance_groups` does not fire -/
+
+theorem groupBalances_ne_err (st : Settings) (sel : BalRow → Bool) :
+    ∀ (cs : List (String × List Txn)), (∀ kg ∈ cs, fromIter st sel (postsOf kg.2) ≠ .err) →
+      groupBalances st sel cs ≠ .err := by
+  intro cs
+  induction cs with
+  | nil => intro _; simp [groupBalances]
+  | cons c rest ih =>
+    intro h
+    obtain ⟨k, g⟩ := c
+    have h1 := h (k, g) List.mem_cons_self
+    have h2 := ih (fun kg hkg => h kg (List.mem_cons_of_mem _ hkg))
+    simp only [groupBalances]
+    split
+    · rename_i e; exact absurd e h1
+    · simp
+    · split
+      · rename_i e; exact absurd e h2
+      · simp
+      · simp
+
+/-- **no_panic**: `Balance::from_iter(…).expect(…)` inside `balance_groups` is the one panic site of the report.  If
+    the settings know every proper ancestor of every posted account in the posting's commodity (which the load path
+    establishes, as for `C02.balance_ok_of_closed`), no group's balance fails, so the model never answers `.err` —
+    the code does not panic — for any key function. -/
+theorem no_panic (st : Settings) (sel : BalRow → Bool) (key : Txn → String) (txns : List Txn)
+    (hwf : C02.PostsWF (postsOf txns))
+    (hclosed : ∀ p ∈ postsOf txns, ∀ q : Path, q ≠ [] → q <+: p.acct → q ≠ p.acct →
+      ∃ r, st.getTxnAccount q p.comm = .ok r) :
+    balanceGroupsBy st sel key txns ≠ .err := by
+  unfold balanceGroupsBy
+  apply C02.map_ne_err
+  apply groupBalances_ne_err
+  intro kg hkg
+  have hsub : ∀ p ∈ postsOf kg.2, p ∈ postsOf txns := by
+    rw [(candidates_spec key txns).filter kg hkg]
+    exact postsOf_subset (fun _ ht => (List.mem_filter.mp ht).1)
+  have hb := C02.balance_ok_of_closed st (postsOf kg.2) (postsWF_subset hwf hsub)
+    (fun p hp => hclosed p (hsub p hp))
+  unfold fromIter
+  split
+  · rename_i e; exact absurd e hb
+  · simp
+  · split <;> simp
+
 /-! ### the groups in closed form -/
 
 /-- strictly ascending lists of strings with the same members are equal -/
